@@ -796,7 +796,22 @@ func analyseOperators(path string, builtinFile *ast.File) (int, [][2]string) {
 		fatal("operators/builtin.go: const maxNumberExponent not found (the limit on decimal exponents is gone)")
 	}
 	zero := "if num2.Equals(types.XNumberZero) {\nreturn types.NewXErrorf(\"division by zero\")\n}"
-	mul := "if exponentOutOfRange(big.NewInt(int64(num1.Native().Exponent()) + int64(num2.Native().Exponent()))) {\nreturn types.NewXErrorf(\"number value out of range\")\n}"
+	mul := "if exponentOutOfRange(big.NewInt(int64(factor1.Exponent()) + int64(factor2.Exponent()))) {\nreturn types.NewXErrorf(\"number value out of range\")\n}"
+	mulCanon := "factor1, factor2 := canonical(num1.Native()), canonical(num2.Native())"
+	powCanon := "base, power := canonical(num1.Native()), canonical(num2.Native())"
+	wantCanonical := "func canonical(d decimal.Decimal) decimal.Decimal {\nif d.Exponent() == 0 {\nreturn d\n}\nif d.Exponent() < 0 && new(big.Int).Rem(d.Coefficient(), big.NewInt(10)).Sign() != 0 {\nreturn d\n}\nreturn decimal.RequireFromString(d.String())\n}"
+	foundCanonical := false
+	for _, d := range f.Decls {
+		if x, isF := d.(*ast.FuncDecl); isF && x.Name.Name == "canonical" {
+			foundCanonical = true
+			if normalise(stripComments(x)) != normalise(wantCanonical) {
+				fatal("operators.canonical no longer has the recorded shape:\n%s", stripComments(x))
+			}
+		}
+	}
+	if !foundCanonical {
+		fatal("operators/builtin.go: func canonical not found (the limits would depend on how a number is written)")
+	}
 	oor := "{\nreturn types.NewXErrorf(\"number value out of range\")\n}"
 	pow1 := "if exponentOutOfRange(new(big.Int).Mul(big.NewInt(int64(base.Exponent())), power.BigInt())) " + oor
 	pow2 := "if power.IsNegative() && exponentOutOfRange(new(big.Int).Mul(big.NewInt(int64(base.NumDigits())), power.BigInt())) " + oor
@@ -815,7 +830,9 @@ func analyseOperators(path string, builtinFile *ast.File) (int, [][2]string) {
 		fatal("operators/builtin.go: const maxFractionalPowerDigits is not 64 (the model's max_fractional_power_digits)")
 	}
 	return maxExp, [][2]string{
-		{"Multiply.exponent", stmtIs(f.Decls, "Multiply", 0, mul)},
+		{"Multiply.canonical", stmtIs(f.Decls, "Multiply", 0, mulCanon)},
+		{"Multiply.exponent", stmtIs(f.Decls, "Multiply", 1, mul)},
+		{"Exponent.canonical", stmtIs(f.Decls, "Exponent", 0, powCanon)},
 		{"Divide.zero", stmtIs(f.Decls, "Divide", 0, zero)},
 		{"Mod.zero", stmtIs(builtinFile.Decls, "Mod", 0, zero)},
 		{"Exponent.exponent", stmtIs(f.Decls, "Exponent", 1, pow1)},
